@@ -553,6 +553,31 @@ pub fn evaluate(prog: &Program, out: &RunOut) -> (Vec<Viol>, Feat) {
         explain_pred(&a, out, &mut v, &mut f);
     }
 
+    // how many operations sat in the waiting list at the same time (generator envelope)
+    {
+        let mut ev: Vec<(u64, i32)> = Vec::new();
+        for (i, o) in ops.iter().enumerate() {
+            if let Some(r) = a.on[i].reg_send.or(a.on[i].reg_recv) {
+                ev.push((r, 1));
+                ev.push((if o.ret == 0 { u64::MAX } else { o.ret }, -1));
+            }
+        }
+        ev.sort();
+        let (mut cur, mut mx) = (0i32, 0i32);
+        for (_, d) in ev {
+            cur += d;
+            mx = mx.max(cur);
+        }
+        if mx >= 2 {
+            f.add("waiting_list_ge2", 1);
+        }
+        if mx >= 3 {
+            f.add("waiting_list_ge3", 1);
+        }
+        if mx >= 5 {
+            f.add("waiting_list_ge5", 1);
+        }
+    }
     // generic classes
     for o in ops.iter() {
         if o.res != Res::Skip && !o.implicit {
